@@ -121,12 +121,15 @@ class Client:
             buf = self.__read_buffer[:limit]
             self.__read_buffer = self.__read_buffer[limit:]
             size -= limit
-        if not size:
-            return buf
-        try:
-            buf += self.sock.recv(size)
-        except (socket.timeout, ssl.SSLError):
-            raise Error("Failed to read %d bytes from the server" % size)
+        while size:
+            try:
+                data = self.sock.recv(size)
+            except (socket.timeout, ssl.SSLError):
+                raise Error("Failed to read %d bytes from the server" % size)
+            if not len(data):
+                raise Error("Connection closed by the server")
+            buf += data
+            size -= len(data)
         self.__dprint(buf)
         return buf
 
